@@ -898,6 +898,10 @@ class Exec(ExprMixin, CallMixin):
             fi = None
             if not ct.trusted:
                 raise Unsupported(f"callee {ct.qualname} not found in {ct.path}", node)
+        if constructing is not None and self_sv is None:
+            self_sv = self.ctx.fresh(TRef(constructing), "new_" + constructing)
+            self.ctx.assume(self_sv.t > 0)
+        new_obj = self_sv if constructing is not None else None
         bound = self.bind_args(ct, fi, self_sv, node)
         if any("clock()" in e for e in list(ct.ensures.values()) + list(ct.exc_ensures.values())):
             # the callee reads the wall clock: a fresh, non-decreasing instant for this call
@@ -977,7 +981,7 @@ class Exec(ExprMixin, CallMixin):
             # havoc + assume post
             self.havoc_modifies(mod_keys, bound)
             if constructing is not None:
-                res = c.fresh(TRef(constructing), "new_" + constructing)
+                res = new_obj
             elif ct.ret is None or ct.ret is TNone:
                 res = mk_none()
             else:
